@@ -33,7 +33,9 @@ struct TRec {
     int fn_runs = 0;
     bool fn_done = false;
     int sim_tid = -1;
-    std::vector<int> atexit_registered;
+    std::vector<int> atexit_registered; // every tag ever registered
+    std::vector<int> atexit_pending;    // stack: registered and not yet run
+    std::vector<int> atexit_nesting;    // tags whose callback registers one more callback while the chain is being run
     int atexit_ran = 0;
     int os_joins = 0;
     bool joined_by_api = false;
@@ -64,11 +66,21 @@ void atexit_cb(void *ud) {
     if (sim::self() != r.sim_tid)
         sim::violation("c20:atexit-thread", "at-exit callback of thread %d ran on T%d instead of its own thread T%d", id, sim::self(), r.sim_tid);
     if (!r.fn_done) sim::violation("c20:atexit-early", "at-exit callback of thread %d ran before the thread function returned", id);
-    size_t n = r.atexit_registered.size();
-    if ((size_t)r.atexit_ran >= n) sim::violation("c20:atexit-twice", "thread %d: more at-exit invocations than registrations", id);
-    int expect = r.atexit_registered[n - 1 - (size_t)r.atexit_ran];
+    if (r.atexit_pending.empty()) sim::violation("c20:atexit-twice", "thread %d: more at-exit invocations than registrations", id);
+    int expect = r.atexit_pending.back();
     if (tag != expect)
         sim::violation("c20:atexit-order", "thread %d: at-exit callback #%d ran, expected #%d (reverse order of registration)", id, tag, expect);
+    r.atexit_pending.pop_back();
+    for (int nt : r.atexit_nesting)
+        if (nt == tag) {
+            // a callback may itself register a callback: it belongs to this thread's chain like any other
+            int ntag = (int)r.atexit_registered.size() + 1;
+            r.atexit_registered.push_back(ntag);
+            r.atexit_pending.push_back(ntag);
+            sim::probe("at_exit_registered_from_at_exit_callback");
+            if (aws_thread_current_at_exit(atexit_cb, (void *)(intptr_t)(id * 1000 + ntag)))
+                sim::violation("c20:atexit", "aws_thread_current_at_exit failed inside an at-exit callback");
+        }
     r.atexit_ran++;
     c.hist = sim::mix64(c.hist, (uint64_t)code);
     sim::yield();
@@ -228,6 +240,8 @@ void body(Ctx &c, int id) {
                     TRec &r = c.t[id];
                     int tag = (int)r.atexit_registered.size() + 1;
                     r.atexit_registered.push_back(tag);
+                    r.atexit_pending.push_back(tag);
+                    if (op.a) r.atexit_nesting.push_back(tag);
                     if (aws_thread_current_at_exit(atexit_cb, (void *)(intptr_t)(id * 1000 + tag))) sim::violation("c20:atexit", "aws_thread_current_at_exit failed on an aws thread");
                     c.ops_done++;
                 }
@@ -358,7 +372,7 @@ void gen(uint64_t seed, int tier, sim::Plan &p) {
         for (int k = 0; k < n; k++) {
             sim::Op o; o.thr = t;
             uint64_t w = r.below(10);
-            if (w < 3) { o.kind = OP_ATEXIT; }
+            if (w < 3) { o.kind = OP_ATEXIT; o.a = r.chance(0.2); }
             else if (w < 6) { o.kind = OP_YIELD; }
             else if (w < 9) { o.kind = OP_SLEEP; o.a = r.pick(std::vector<int64_t>{1000, 100000, 1000000, 1000000, 50000000, 1000000000}); }
             else { o.kind = OP_COUNT_QUERY; }
@@ -417,7 +431,7 @@ std::string op_text(const sim::Op &op) {
         case OP_SET_TIMEOUT: snprintf(b, sizeof b, "main: set managed join timeout %lld ns", (long long)op.a); break;
         case OP_SLEEP: snprintf(b, sizeof b, "thread %d: sleep(%lld ns virtual)", op.thr, (long long)op.a); break;
         case OP_YIELD: snprintf(b, sizeof b, "thread %d: yield", op.thr); break;
-        case OP_ATEXIT: snprintf(b, sizeof b, "thread %d: aws_thread_current_at_exit(next tag)", op.thr); break;
+        case OP_ATEXIT: snprintf(b, sizeof b, "thread %d: aws_thread_current_at_exit(next tag)%s", op.thr, op.a ? " [its callback registers one more callback]" : ""); break;
         case OP_ATEXIT_MAIN: snprintf(b, sizeof b, "main: aws_thread_current_at_exit (must be refused: not an aws thread)"); break;
         case OP_COUNT_QUERY: snprintf(b, sizeof b, "thread %d: aws_thread_get_managed_thread_count()", op.thr); break;
         default: snprintf(b, sizeof b, "?");
